@@ -51,13 +51,13 @@ CHECKS['C09'] = {
 CHECKS['C10'] = {
     'jobs': {'quick': [J('c09_queue.cpp', ['MODE=1', 'HOPS=1', 'NPKT=3'], wall=250, markers=(1, 2, 3)),
                        J('c09_queue.cpp', ['MODE=1', 'HOPS=2', 'NPKT=2'], wall=250, markers=(1, 2, 3)),
-                       J('c09_queue.cpp', ['MODE=3', 'HOPS=1', 'NPKT=3'], wall=250, markers=(1, 2, 3))],
+                       J('c09_queue.cpp', ['MODE=3', 'HOPS=1', 'NPKT=2'], wall=250, markers=(1, 2, 3))],
              'thorough': [J('c09_queue.cpp', ['MODE=1', 'HOPS=1', 'NPKT=4'], wall=1500, markers=(1, 2, 3)),
                           J('c09_queue.cpp', ['MODE=1', 'HOPS=2', 'NPKT=3'], wall=1500, markers=(1, 2, 3)),
                           J('c09_queue.cpp', ['MODE=3', 'HOPS=1', 'NPKT=4'], wall=1500, markers=(1, 2, 3)),
                           J('c09_queue.cpp', ['MODE=3', 'HOPS=2', 'NPKT=3'], wall=1500, markers=(1, 2, 3))]},
     'bounds': {'quick': 'symbolic sizes: 1 queue x 3 packets, 2 queues x 2 packets, capacity symbolic 0..5000 bytes, infinitely fast link with latency 0 or symbolic, packet type symbolic over all 5 types, '
-                        'overhead symbolic 20..1500, bursts (gap 0) and spaced arrivals, one packet without a drop callback; rate-limited link {1k,56k B/s}: 1 queue x 3 packets with sizes from {20,548,1500}',
+                        'overhead symbolic 20..1500, bursts (gap 0) and spaced arrivals, one packet without a drop callback; rate-limited link {1k,56k B/s}: 1 queue x 2 packets with sizes from {20,548,1500}',
                'thorough': '4 packets on 1 queue, 3 packets over 2 queues, in both regimes'},
     'outside': ['more packets than the bound (the byte account over long histories is covered only up to the bound)',
                 'a packet re-entering the same queue from inside its own forwarding call (re-entrant arrival)'],
@@ -65,18 +65,18 @@ CHECKS['C10'] = {
 }
 
 def c15_jobs(tier):
-    nmax = 8 if tier == 'quick' else 10
+    nmax = 9 if tier == 'quick' else 11
     jobs = [J('c15_parser.cpp', ['MODE=0', 'LEN=%d' % n], wall=(200 if tier == 'quick' else 1500), markers=((1, 3) if n < 8 else (1, 2, 3))) for n in range(0, nmax + 1)]
     jobs.append(J('c15_parser.cpp', ['MODE=1', 'PART=0', 'TMAX=%d' % (4 if tier == 'quick' else 6)], wall=(200 if tier == 'quick' else 1500), markers=(1, 2, 3)))
-    jobs.append(J('c15_parser.cpp', ['MODE=1', 'PART=1', 'TMAX=0'], wall=(200 if tier == 'quick' else 1500), markers=(1, 2, 3)))
+    jobs.append(J('c15_parser.cpp', ['MODE=1', 'PART=1', 'TMAX=0'] + (['SMALL'] if tier == 'quick' else []), wall=(200 if tier == 'quick' else 1500), markers=(1, 2, 3)))
     jobs.append(J('c15_parser.cpp', ['MODE=2', 'LEN=%d' % (4 if tier == 'quick' else 6)], wall=(200 if tier == 'quick' else 1500), markers=(1, 2, 3, 4)))
     return jobs
 CHECKS['C15'] = {
     'jobs': c15_jobs,
-    'bounds': {'quick': 'totality/bounds: every byte string of every length 0..8 in an exactly sized heap block, parse_request(buf,len) and find_request_len; '
+    'bounds': {'quick': 'totality/bounds: every byte string of every length 0..9 in an exactly sized heap block, parse_request(buf,len) and find_request_len; '
                         'round trip: methods CONNECT / 1 / 3 symbolic letters, targets of 0..4 symbolic bytes over {/ . ? a b %}, 0..2 header lines with 1-2 symbolic name bytes, '
                         '0-2 symbolic value bytes and whitespace variants; helpers trim/lower_case/normalize on symbolic strings up to 4 bytes',
-               'thorough': 'byte strings up to length 10, targets up to 6 bytes, helper strings up to 6 bytes'},
+               'thorough': 'byte strings up to length 11, two-byte header names, targets up to 6 bytes, helper strings up to 6 bytes'},
     'outside': ['inputs longer than the bound', 'header values with embedded NUL (trim treats NUL like whitespace; not part of a well-formed request)'],
     'assumptions': ['trim(): no embedded NUL bytes'],
 }
